@@ -197,9 +197,9 @@ PacketOctet(K, C, esi) == EncSym(Params(K), C, IsiOfEsi(Params(K), K, esi))
 ---------------------------------------------------------------------------
 (* Certificates (linear in L): C satisfies every pre-code relation.  The HDPC product is evaluated as
    MT x (GAMMA x C): g[k] = C[k] + alpha*g[k-1] is GAMMA x C by Horner, then row i of MT selects from g. *)
-LdpcHolds(pr, C) ==
-  LET \* D[i] accumulators: fold over the B LT columns (three targets each), then the identity and PI part
-      step(acc, j) == LET a == 1 + (j \div pr.S)  b0 == j % pr.S  b1 == (b0 + a) % pr.S  b2 == (b1 + a) % pr.S
+\* reference form: literally the RFC's two loops (accumulate into D[0..S-1])
+LdpcHoldsRef(pr, C) ==
+  LET step(acc, j) == LET a == 1 + (j \div pr.S)  b0 == j % pr.S  b1 == (b0 + a) % pr.S  b2 == (b1 + a) % pr.S
                           cj == C[j+1]
                           t0 == [acc EXCEPT ![b0+1] = @ ^^ cj]
                           t1 == [t0 EXCEPT ![b1+1] = @ ^^ cj]
@@ -208,6 +208,19 @@ LdpcHolds(pr, C) ==
       accB == FoldLeft(step, acc0, [j \in 1..pr.B |-> j - 1])
   IN \A i \in 0..(pr.S - 1) :
         (accB[i+1] ^^ C[pr.W + (i % pr.P) + 1]) ^^ C[pr.W + ((i + 1) % pr.P) + 1] = 0
+\* the same relations regrouped per LDPC row r (linear in B instead of B*S copies): column j = q*S + b0 (a = q+1) adds
+\* C[j] to rows b0, b0+a, b0+2a (mod S), so row r receives C[q*S + r], C[q*S + (r-a) mod S], C[q*S + (r-2a) mod S].
+\* MC_Rank checks LdpcHolds = LdpcHoldsRef on sample vectors.
+RECURSIVE LdpcRowSum(_, _, _, _)
+LdpcRowSum(pr, C, r, q) ==
+  IF q * pr.S >= pr.B THEN 0
+  ELSE LET a == q + 1
+           term(b0) == IF q * pr.S + b0 < pr.B THEN C[q * pr.S + b0 + 1] ELSE 0
+       IN ((term(r) ^^ term((r + pr.S - (a % pr.S)) % pr.S)) ^^ term((r + 2 * pr.S - ((2 * a) % pr.S)) % pr.S))
+          ^^ LdpcRowSum(pr, C, r, q + 1)
+LdpcHolds(pr, C) ==
+  \A r \in 0..(pr.S - 1) :
+     ((LdpcRowSum(pr, C, r, 0) ^^ C[pr.B + r + 1]) ^^ C[pr.W + (r % pr.P) + 1]) ^^ C[pr.W + ((r + 1) % pr.P) + 1] = 0
 
 HdpcAcc(pr, C) ==
   LET n == pr.Kp + pr.S
